@@ -7,6 +7,7 @@ import (
 	"go/token"
 	"go/types"
 	"math"
+	"math/bits"
 	"strings"
 
 	"golang.org/x/tools/go/packages"
@@ -384,6 +385,19 @@ func (w *wInterp) call(c *ast.CallExpr) wv {
 		return w.bad("SetWires of a non-slice")
 	case "Errorf":
 		return "error"
+	case "Len", "Len8", "Len16", "Len32", "Len64", "TrailingZeros", "TrailingZeros32", "TrailingZeros64", "OnesCount", "OnesCount64":
+		if sel, ok := c.Fun.(*ast.SelectorExpr); ok && cx(sel.X) == "bits" && len(c.Args) == 1 {
+			if x, ok := w.expr(c.Args[0]).(int64); ok && x >= 0 {
+				switch {
+				case strings.HasPrefix(name, "Len"):
+					return int64(bits.Len64(uint64(x)))
+				case strings.HasPrefix(name, "TrailingZeros"):
+					return int64(bits.TrailingZeros64(uint64(x)))
+				default:
+					return int64(bits.OnesCount64(uint64(x)))
+				}
+			}
+		}
 	case "Log2", "Ceil", "Floor":
 		if sel, ok := c.Fun.(*ast.SelectorExpr); ok && cx(sel.X) == "math" && len(c.Args) == 1 {
 			if x, ok := w.expr(c.Args[0]).(float64); ok {
